@@ -490,7 +490,7 @@ func procChild(path string) {
 		// live subprocessors (they differ only between decreaseTask and the deletion); a leak or a
 		// double release never gets there
 		tk, _, live := probe.read(w.pub.id)
-		for n := 0; n < 2500 && live >= 0 && tk != uint64(live); n++ {
+		for n := 0; n < 1000 && live >= 0 && tk != uint64(live); n++ {
 			drain()
 			time.Sleep(400 * time.Microsecond)
 			tk, _, live = probe.read(w.pub.id)
